@@ -2,7 +2,7 @@ import Fdo.Cbor.Typed
 /-
 A fragment of the typed codec for which decode ∘ encode = id is *proved* (TypedProofs.lean):
 integers, booleans, byte and text strings, fixed-size arrays, slices, array-encoded structs whose
-fields are mandatory or (at most one per struct) an `omitempty` byte slice, without embedded COSE header, `cbor.Tag[T]`, `cbor.Bstr[T]`,
+fields are mandatory or (at most one per struct) an `omitempty` byte slice, or the embedded COSE header (label→value maps with labels in encoding order and scalar values), `cbor.Tag[T]`, `cbor.Bstr[T]`,
 `cbor.ByteWrap[T]`, `cbor.ByteWrap[[]byte]`, pointers to any of these and `cbor.RawBytes`, nested arbitrarily. `inFragment` decides membership,
 so the regenerated wire schemas can be classified by `decide`.
 Recursion is on a fuel argument because `Val` nests `List Val` (no structural recursion on it here).
@@ -12,7 +12,7 @@ open Fdo
 
 /-- encodings of values of this type never begin with null/undefined (so `*T` can tell nil from a value) -/
 def Schema.neverNull : Schema → Bool
-  | .uint _ | .int _ | .bool | .bytes | .text | .fixed _ | .slice _ | .struct _ | .tagAny _ | .bstr _ | .wrap _ | .wrapBytes => true
+  | .uint _ | .int _ | .bool | .bytes | .text | .fixed _ | .slice _ | .struct _ | .tagAny _ | .tagNum _ _ | .bstr _ | .wrap _ | .wrapBytes => true
   | _ => false
 
 mutual
@@ -22,6 +22,7 @@ def Schema.ptrDepth : Schema → Nat
   | .struct fs => fs.ptrDepth
   | .ptr e => e.ptrDepth + 1
   | .tagAny e => e.ptrDepth
+  | .tagNum _ e => e.ptrDepth + 1   -- the wrapper's own raw pass costs a step
   | .bstr e => e.ptrDepth
   | .wrap e => e.ptrDepth
   | _ => 0
@@ -30,6 +31,57 @@ def Fields.ptrDepth : Fields → Nat
   | .cons s o fs => max s.ptrDepth fs.ptrDepth + (if o then 1 else 0)   -- an omitted field costs a step too
   | .hdr fs => fs.ptrDepth
 end
+
+
+/-! ### COSE header maps in the fragment: labels in encoding order, scalar values -/
+
+/-- scalar header values: int64, byte string, text string, bool, within the decode limits -/
+def AnyVal.scalarOK : AnyVal → Bool
+  | .int i => decide (-9223372036854775808 ≤ i ∧ i ≤ 9223372036854775807)
+  | .bytes b => decide (b.length < maxLen)
+  | .text b => decide (b.length < maxLen)
+  | .bool _ => true
+  | _ => false
+
+
+def labelAny : Val → AnyVal
+  | .int i => .int i
+  | .text b => .text b
+  | _ => .null
+
+/-- a COSE label the codec round-trips: a non-zero int64 or a text string (label 0 is written as the
+empty text string by `IntOrStr`, a quirk kept out of the fragment) -/
+def labelOK : Val → Bool
+  | .int i => decide (i ≠ 0 ∧ -9223372036854775808 ≤ i ∧ i ≤ 9223372036854775807)
+  | .text b => decide (b.length < maxLen)
+  | _ => false
+
+
+/-- the concatenated encodings of a header map's pairs, in the order given -/
+def hdrFlat (m : List (Val × AnyVal)) : Bytes := (m.map fun p => encLabel p.1 ++ encodeAny p.2).flatten
+
+/-- labels valid, values scalars -/
+def hdrElemsOK (m : List (Val × AnyVal)) : Bool := m.all fun p => labelOK p.1 && p.2.scalarOK
+
+/-- labels in strictly ascending bytewise order of their encodings (the order `encHdrMap` writes) -/
+def HdrSorted (m : List (Val × AnyVal)) : Prop := m.Pairwise fun a b => bytesLt (encLabel a.1) (encLabel b.1) = true
+
+
+/-- Bool version of `HdrSorted` -/
+def hdrSortedB : List (Val × AnyVal) → Bool
+  | [] => true
+  | a :: l => l.all (fun b => bytesLt (encLabel a.1) (encLabel b.1)) && hdrSortedB l
+
+theorem hdrSortedB_sound (m : List (Val × AnyVal)) (h : hdrSortedB m = true) : HdrSorted m := by
+  induction m with
+  | nil => exact List.Pairwise.nil
+  | cons a l ih =>
+    simp only [hdrSortedB, Bool.and_eq_true, List.all_eq_true] at h
+    exact List.Pairwise.cons (fun b hb => h.1 b hb) (ih h.2)
+
+/-- a header map the fragment covers -/
+def hdrMapOK (m : List (Val × AnyVal)) : Bool :=
+  hdrElemsOK m && hdrSortedB m && decide (m.length < maxLen / 2) && decide ((encHdrMap m).length < maxLen)
 
 mutual
 /-- schema is in the proved fragment -/
@@ -43,6 +95,7 @@ def Schema.inFragment : Schema → Bool
   | .slice e => e.inFragment
   | .struct fs => fs.inFragment && decide (fs.slots < maxLen ∧ fs.omittables ≤ 1)
   | .tagAny e => e.inFragment
+  | .tagNum n e => e.inFragment && decide (n < 18446744073709551616)
   | .bstr e => e.inFragment
   | .wrap e => e.inFragment
   | .wrapBytes => true
@@ -54,7 +107,48 @@ def Fields.inFragment : Fields → Bool
   | .cons .bytes true fs => fs.inFragment        -- `omitempty` on a byte slice (the only use in the wire types)
   | .cons s false fs => s.inFragment && fs.inFragment
   | .cons _ true _ => false
-  | .hdr _ => false
+  | .hdr fs => fs.inFragment
+end
+
+mutual
+/-- `wconf g d s v`: the encoding of `v` is one item the *untyped* decoder (`decodeRaw`, used by
+Unmarshaler-based wrappers such as the COSE tag types before they decode their content) accepts with `d`
+container levels available: nesting of arrays, maps and tags within `d`, byte-string contents below the
+length limit. -/
+def wconf : Nat → Nat → Schema → Val → Bool
+  | 0, _, _, _ => false
+  | g+1, d, s, v =>
+    match s, v with
+    | .uint _, .nat _ => true
+    | .int _, .int _ => true
+    | .bool, .bool _ => true
+    | .bytes, .bytes _ => true
+    | .text, .text _ => true
+    | .fixed _, .bytes _ => true
+    | .slice e, .list vs => decide (1 ≤ d) && wconfList g (d - 1) e vs
+    | .struct fs, .strct vs => decide (1 ≤ d) && wconfFields g (d - 1) fs vs
+    | .tagAny e, .tag _ x => decide (1 ≤ d) && wconf g (d - 1) e x
+    | .tagNum _ e, .tag _ x => decide (1 ≤ d) && wconf g (d - 1) e x
+    | .bstr e, x => match encodeS g e x with | some c => decide (c.length < maxLen) | none => false
+    | .wrap e, x => match encodeS g e x with | some c => decide (c.length < maxLen) | none => false
+    | .wrapBytes, .bytes b => decide (b.length < maxLen)
+    | .ptr _, .nilp => true
+    | .ptr e, .ref x => wconf g d e x
+    | .raw, .raw b =>
+      match decode (2 * b.length + 1) d b with
+      | some (_, []) => true
+      | _ => false
+    | _, _ => false
+def wconfList : Nat → Nat → Schema → List Val → Bool
+  | 0, _, _, _ => false
+  | _+1, _, _, [] => true
+  | g+1, d, e, v :: vs => wconf g d e v && wconfList g d e vs
+def wconfFields : Nat → Nat → Fields → List Val → Bool
+  | 0, _, _, _ => false
+  | _+1, _, .nil, [] => true
+  | g+1, d, .cons s _ fs, v :: vs => wconf g d s v && wconfFields g d fs vs
+  | g+1, d, .hdr fs, .hdr _ _ :: vs => decide (1 ≤ d) && wconfFields g d fs vs
+  | _, _, _, _ => false
 end
 
 mutual
@@ -73,6 +167,7 @@ def conf : Nat → Nat → Schema → Val → Bool
     | .slice e, .list vs => decide (1 ≤ d ∧ vs.length < maxLen) && confList g (d - 1) e vs
     | .struct fs, .strct vs => decide (1 ≤ d) && confFields g (d - 1) fs vs
     | .tagAny e, .tag n x => decide (n < 18446744073709551616) && conf g maxDepth e x
+    | .tagNum n e, .tag m x => decide (m = n ∧ 1 ≤ d) && conf g maxDepth e x && wconf g (d - 1) e x
     | .bstr e, x => conf g maxDepth e x
     | .wrap e, x => conf g maxDepth e x
     | .wrapBytes, .bytes _ => true
@@ -92,7 +187,9 @@ def confFields : Nat → Nat → Fields → List Val → Bool
   | 0, _, _, _ => false
   | _+1, _, .nil, [] => true
   | g+1, d, .cons s _ fs, v :: vs => conf g d s v && confFields g d fs vs
+  | g+1, d, .hdr fs, .hdr pm um :: vs => hdrMapOK pm && hdrMapOK um && confFields g d fs vs
   | _, _, _, _ => false
 end
+
 
 end Fdo.Cbor
